@@ -125,6 +125,9 @@ func (x *executor) intrinsic(m *machine, fr *frame, in ssa.Instruction, res ssa.
 		}
 		return false
 	}
+	if x.timeIntrinsic(m, fr, in, res, key, args) {
+		return true
+	}
 	switch key {
 	case "errors.New":
 		x.setResult(fr, res, []Val{{t: x.freshError(st), typ: errT}})
